@@ -48,11 +48,16 @@ LEVEL = "model_checking"
 ENGINE = "E3-SCHED"
 SHARDS = {"quick": 8, "thorough": 16}
 RULE = (
-    "all schedules (preemption bound 1 quick / 2 thorough; environment events free) of 1-3 real request threads "
-    "(work | work_close) on ONE sticky session + optional DELETE /__session__ thread + the real reaper loop "
-    "(1-2 ticks) + clock event (ttl-1 | ttl+1) + drain/shutdown event, against a real make_wsgi_app sticky app; "
-    "line-level scheduling points in _SessionRegistry.*, _close_session, on_delete + every lock operation + "
-    "points inside method bodies and the close hook; non-trivial = schedule with >=1 choice point"
+    "for every harness of a fixed list (quick 25, thorough 69): all schedules within its preemption bound (1, or 2 "
+    "for the harnesses marked b2; a switch to an environment task - reaper / clock / shutdown - costs 0 or 1 as "
+    "marked e0/e1) of 1-3 real request threads (work | work_close) on ONE sticky session + optional DELETE "
+    "/__session__ thread + the real reaper loop (1-2 ticks) + clock jump (ttl-1 | ttl+1; own event or while the "
+    "reaper sleeps) + drain();shutdown() event, against a real make_wsgi_app sticky app; scheduling points: every "
+    "line of _SessionRegistry.get/close/drain_expired/shutdown (narrow window 'n') or additionally every line of "
+    "the other registry methods, _close_session, on_delete, process_response, _ReaperThread.run (wide window 'w'), "
+    "every operation on the registry lock and the per-session RLock, and explicit points in the method bodies and "
+    "the close hook; non-trivial = schedule with >=1 choice point; a harness label reads "
+    "tasks/b<bound>e<env cost><window>"
 )
 TECHNIQUE = (
     "stateless model checking (CHESS-style preemption bounding) of the real sticky middleware/registry under a "
@@ -67,14 +72,16 @@ LEVEL_TEXT = (
 LEVEL_NOTE = (
     "Granularity: one source line inside the traced _sticky functions, lock operations elsewhere; code outside "
     "the window (falcon, RpcServer dispatch, token crypto) runs atomically between points. Bounds: <=3 request "
-    "threads, one session, <=2 reaper ticks, preemption bound 1/2 with free environment events."
+    "threads, one session, <=2 reaper ticks, preemption bound 1 (quick; 2 for three small harnesses) / 2 "
+    "(thorough; 1 for the three-request and the widest harnesses)."
 )
 ASSUMPTIONS = [
-    "scheduling granularity is one source line in _SessionRegistry.*, _StickyMiddleware._close_session, _SessionResource.on_delete, plus every Lock/RLock operation created by _sticky (bytecode-level races inside a line are not explored)",
+    "scheduling granularity is one source line in the traced functions of _sticky.py (narrow window: _SessionRegistry.get/close/drain_expired/shutdown; wide window adds the other registry methods, _close_session, on_delete, process_response, _ReaperThread.run) plus every Lock/RLock operation created by _sticky; bytecode-level races inside a line are not explored",
     "code of _sticky outside the trace window (token open/seal, contextvar installation, header emission) touches no shared session state and is executed atomically",
     "the reaper is modelled by running the real _ReaperThread.run loop as a scheduler task with a tick source in place of Event.wait(tick_seconds); ticks may land at any scheduling point",
     "time is read through the module global `time` of vgi_rpc.http.server._sticky (rebound to a virtual clock)",
     "a request stops counting as 'dispatching against the session' when its body calls ctx.close_session() (weakest reading)",
+    "a lock acquire with a timeout would be modelled as timing out only when nothing else can run (the pinned tree uses none)",
 ]
 
 TTL = 100.0
@@ -416,6 +423,7 @@ WEIGHT: dict[str, int] = {'work+DELETE+clock101/b1e0n': 1242,
  'work+work+work_close/b2e0n': 12218,
  'work+work/b1e0n': 28,
  'work+work/b1e0w': 84,
+ 'work+reaper1+clock101@tick+shutdown/b1e1n': 200,
  'work+work/b2e0n': 314,
  'work+work_close+DELETE/b1e0n': 402,
  'work+work_close+DELETE/b1e0w': 1026,
@@ -642,13 +650,17 @@ def oracle(ctx: Ctx, cfg: dict[str, Any], x: S.Exec) -> Any:
     if incomplete or aborted:
         r.tainted = True
     ctx.extra["close_hooks"] += closes
+    ctx.extra["session_lost_responses"] = ctx.extra.get("session_lost_responses", 0) + sum(1 for n, v in w["resp"].items() if n != "D" and v[1])
+    ctx.extra["delete_hits"] = ctx.extra.get("delete_hits", 0) + sum(1 for n, v in w["resp"].items() if n == "D" and v[0] == 204)
+    ctx.extra["probe_dispatched"] = ctx.extra.get("probe_dispatched", 0) + (1 if probe is not None and probe[0] == 200 and not probe[1] else 0)
     ctx.extra["dispatches"] += sum(1 for e in ev if e[0] == "begin")
     return (tuple(ev), tuple(sorted(w["resp"].items())), probe, x.deadlock)
 
 
 def run(ctx: Ctx) -> None:
     ctx.extra.update({"schedules": 0, "max_bound_completed": 0, "configs": 0, "deadlocks": 0, "max_choice_points": 0,
-                      "max_steps": 0, "close_hooks": 0, "dispatches": 0})
+                      "max_steps": 0, "close_hooks": 0, "dispatches": 0, "session_lost_responses": 0, "delete_hits": 0,
+                      "probe_dispatched": 0})
     cfgs = configs(ctx)
     assign = assignment(cfgs, ctx.shard[1])
     for i, cfg in enumerate(cfgs):
